@@ -184,6 +184,18 @@ PROPS["C19"] = {
     "assumptions": ["codec equivalence of xopen/isal/zlib/bz2/xz/zstd is assumed"],
 }
 
+PROPS["C18"] = {
+    "level": "other",
+    "text": "Under contract: the adapter class table (-a/-g/-b x ^ $ X x rightmost), the `...` normalisation and make_adapter's "
+            "dispatch, the linked and non-linked constructors (class, sequence, name, required flags as documented for -a versus -g, "
+            "explicit required/optional overriding them, adapter-level parameters over file-level over global ones), the file: / "
+            "^file: / file$: notation, the placement-restriction parser and the error-count to rate conversion.  Bounded: a reference "
+            "parser written from the guide compared with the real one on an enumerated grammar; exit status 2 on a list of invalid "
+            "combinations.",
+    "note": "expand_braces, parse_search_parameters and _extract_name (string loops) are covered by the bounded comparison only.",
+    "assumptions": ["adapter constructors are abstract at the parser's call sites", "string method semantics as encoded"],
+}
+
 _PENDING = "check not built yet in this revision (see DESIGN.md section 7 for the build order)"
 NOT_APPLICABLE = {
     "C12": "quantifies over fault sequences, crash points and schedules and contains a liveness clause; malformed-input detection "
